@@ -9,7 +9,10 @@ RULE = ("reference tree on 4..12 taxa (rooted or not, binary or multifurcating, 
         "copies (small transfer distances), random binary / multifurcating / star trees, rooted or not; every base collection "
         "is also run with the bootstrap order shuffled, every tree re-rooted and rotated, and the reference re-rooted; "
         "rejection cases replace one tip of one bootstrap tree by a foreign name, drop or add a tip, at the first / middle / "
-        "last position; both FBP and TBE are run on each case; non-trivial = some inner branch has a support strictly between "
+        "last position; both FBP and TBE are run on each case, with Supporter = nil (as the commands) or a fresh "
+        "support.NewSupporter() per call; chain cases run two computations in a row (fbp>fbp, tbe>fbp, fbp>tbe, tbe>tbe; "
+        "accepted or rejected collections in either position) with ONE shared Supporter value and judge each call on its own "
+        "collection; Supporter.Progress() is compared with the number of trees read; non-trivial = some inner branch has a support strictly between "
         "0 and 1 (or the collection must be rejected); distinct = distinct case text")
 TRUSTED = ["trees built through NewNode/NewEdge + verif hooks (exact neighbour order); supports read through Edges()/Support()/Right().Tip()",
            "bootstrap trees are fed through a closed buffered channel of tree.Trees as utils.ReadMultiTrees does (no Newick parsing)",
@@ -170,12 +173,30 @@ def gen(rng, tier):
     def deco_boot(sh):
         return g.decorate(sh, lenmode=rng.choice(["all", "none"]), supmode="none", up_random=rng.random() < 0.3)
 
-    def emit(ref, boots, kind, reject=False):
-        out.append({"sx": sx({"ref": T(ref), "boots": [T(b) for b in boots]}),
-                    "meta": {"kind": kind, "ntips": len(leaves(ref)), "nboot": len(boots),
-                             "ref_rooted": len(ref["slots"]) == 2,
-                             "ref_root_tip": len(ref["slots"]) == 2 and any(not kids(ch) for _, ch in kids(ref)),
+    pool = []    # collections emitted so far: (ref, boots, reject)
+
+    def root_tip(ref):
+        return len(ref["slots"]) == 2 and any(not kids(ch) for _, ch in kids(ref))
+
+    def emit(ref, boots, kind, reject=False, mode="nil"):
+        """FBP and TBE on one collection; mode nil: Supporter = nil, fresh: a new Supporter per call"""
+        out.append({"sx": sx({"mode": Sym(mode), "ref": T(ref), "boots": [T(b) for b in boots]}),
+                    "meta": {"kind": kind, "mode": mode, "ntips": len(leaves(ref)), "nboot": len(boots),
+                             "ref_rooted": len(ref["slots"]) == 2, "ref_root_tip": root_tip(ref),
                              "reject": reject}})
+        if mode == "nil":
+            pool.append((ref, boots, reject))
+
+    def emit_chain(first, second, algs):
+        """two computations in a row with ONE shared Supporter value"""
+        (ref1, boots1, rej1), (ref2, boots2, rej2) = first, second
+        out.append({"sx": sx({"mode": Sym("chain"), "alg1": Sym(algs[0]), "alg2": Sym(algs[1]),
+                              "ref": T(ref1), "boots": [T(b) for b in boots1],
+                              "ref2": T(ref2), "boots2": [T(b) for b in boots2]}),
+                    "meta": {"kind": "chain", "mode": "chain:%s>%s" % algs, "ntips": len(leaves(ref2)),
+                             "nboot": len(boots2), "ref_rooted": len(ref2["slots"]) == 2,
+                             "ref_root_tip": root_tip(ref1) or root_tip(ref2), "reject": rej2,
+                             "first_reject": rej1}})
 
     for it in range(nbase):
         n = rng.randint(4, 12 if tier != "thorough" else 16)
@@ -214,7 +235,20 @@ def gen(rng, tier):
             bsh.append(s)
         ref = deco_ref(refsh)
         boots = [deco_boot(s) for s in bsh]
+        earlier = rng.choice(pool) if pool else None
+        rejected = [x for x in pool if x[2]]
+        if rejected and rng.random() < 0.25:
+            earlier = rng.choice(rejected)      # an error in one of the two computations
         emit(ref, boots, "base")
+        # Supporter state: a fresh non-nil Supporter; two computations sharing one Supporter
+        if rng.random() < 0.3:
+            emit(ref, boots, "base", mode="fresh")
+        if earlier is not None and rng.random() < 0.75:
+            algs = rng.choice([("fbp", "fbp"), ("fbp", "fbp"), ("tbe", "fbp"), ("tbe", "fbp"), ("fbp", "tbe"), ("tbe", "tbe")])
+            if rng.random() < 0.5:
+                emit_chain(earlier, (ref, boots, False), algs)
+            else:
+                emit_chain((ref, boots, False), earlier, algs)
         # the same collection: other order, other rootings and child orders
         if rng.random() < 0.6:
             p = list(boots)
@@ -240,5 +274,6 @@ def gen(rng, tier):
                 s2 = [s, "zz"] if rng.random() < 0.5 else sh_unroot(s) + ["zz"]
             b2 = list(boots)
             b2[pos] = deco_boot(s2)
-            emit(ref, b2, "reject-" + mode + "-" + ("first" if pos == 0 else "last" if pos == k - 1 else "middle"), reject=True)
+            emit(ref, b2, "reject-" + mode + "-" + ("first" if pos == 0 else "last" if pos == k - 1 else "middle"), reject=True,
+                 mode="fresh" if rng.random() < 0.25 else "nil")
     return out
